@@ -489,6 +489,68 @@ func init() {
 				}
 			})
 		}
+		// ---- HISTORY: verify (the list is downloaded and cached) -> time passes {16 min: stale, 25 h: expired} -> verify again
+		// while the remote answers every mutant of the valid list / transport failures. Time is advanced by ageing the cached
+		// record (created_at / expires columns), which is what the passing of time changes for this code.
+		nameH := "revocation.StatusList2021.Verify(history: cached, aged, refresh)"
+		if s.WantEntry(nameH) {
+			history := func(age string, credRaw, secondList []byte, secondStatus int) func() string {
+				return func() string {
+					db.Exec("DELETE FROM status_list_credential")
+					client.body, client.status = listRaw, 200
+					var c vc.VerifiableCredential
+					if err := c.UnmarshalJSON(credRaw); err != nil {
+						panic("harness: " + err.Error())
+					}
+					if err := cs.Verify(c); (err != nil && !strings.Contains(err.Error(), "revoked")) || count() != 1 {
+						panic(fmt.Sprintf("harness: first verification did not cache the list: %v", err))
+					}
+					now := time.Now()
+					switch age {
+					case "16min":
+						db.Exec("UPDATE status_list_credential SET created_at = ?", now.Add(-16*time.Minute).Unix())
+					case "25h":
+						db.Exec("UPDATE status_list_credential SET created_at = ?, expires = ?", now.Add(-25*time.Hour).Unix(), now.Add(-24*time.Hour).Unix())
+					case "25h-no-expiry":
+						db.Exec("UPDATE status_list_credential SET created_at = ?, expires = NULL", now.Add(-25*time.Hour).Unix())
+					}
+					client.body, client.status = secondList, secondStatus
+					defer func() { client.status = 200 }()
+					err := cs.Verify(c)
+					switch {
+					case err == nil:
+						return "not-revoked"
+					case strings.Contains(err.Error(), "revoked"):
+						return "revoked"
+					}
+					return "err"
+				}
+			}
+			ages := []string{"0", "16min", "25h", "25h-no-expiry"}
+			if !s.Replaying() {
+				for _, a := range ages {
+					if out := history(a, credRaw, listRaw, 200)(); out != "not-revoked" {
+						t.Fatalf("harness: history with a valid refresh (age %s): %s", a, out)
+					}
+				}
+			}
+			for _, a := range ages[1:] {
+				a := a
+				s.JSON(nameH, "age="+a+"/list", list, enumNoBig(), false, false, func(d any) ([]byte, func() string) {
+					raw := mustJSON(d)
+					return raw, history(a, credRaw, raw, 200)
+				})
+				rawVariants(s, nameH, "age="+a+"/list", listRaw, false, func(raw []byte) func() string { return history(a, credRaw, raw, 200) })
+				for i, st := range []int{200, 204, 299, 300, 404, 500, 0, -1} {
+					for _, idx := range []string{"5", "6"} {
+						st, idx := st, idx
+						s.Case(nameH, fmt.Sprintf("age=%s/status#%d/index=%s", a, i, idx), true, false, func() ([]byte, func() string) {
+							return []byte(fmt.Sprint(st)), history(a, mustJSON(cred(idx)), listRaw, st)
+						})
+					}
+				}
+			}
+		}
 		_ = context.Background
 		_ = io.Discard
 	})
